@@ -16,6 +16,7 @@ def run(ctx):
                    desc={0: 'encode(clone(m)) == encode(m); clone and original hold the shape',
                          1: 'copy_legal of body, header, trailer into an empty deep-constructed message of the same type: counts, target holds the shape, encode equality, source unchanged',
                          2: 'move_legal of body, header, trailer into an empty deep-constructed message: counts, target holds the shape, encode(target) == encode(original source)'}[mode])
+    add_nested(ctx, defs)
     ctx.assumptions += ['targets of copy_legal / move_legal are empty, deep-constructed messages of the source\'s type (the property\'s premise); force=true is not exercised',
                         'operator new never fails', 'rb-tree rebalancing replaced by an unbalanced BST with the same in-order sequence',
                         'gmtime_r follows its contract (proleptic Gregorian UTC) for the instants the message carries',
@@ -25,7 +26,32 @@ def run(ctx):
     announce_known(ctx, kf, replay)
     return ctx.finish()
 
+# ---------------------------------------------------------------- nested groups (extension; tools/reports/C11.md "Nested groups")
+# shapes over schemas/mini2.xml (message List: outer group NoOrders, nested group NoAllocs), the SOURCE of clone / copy_legal / move_legal is the
+# message Message::factory decoded from encode(m): its group elements are shallow-constructed (nested group instance only if one was on the wire)
+NESTED_QUICK = [('nested0', 1)]
+NESTED_THOROUGH = NESTED_QUICK + [('nested1', 1), ('nested1', 0), ('nested1', 2), ('nested2', 0), ('nested2', 1), ('nested_f', 1)]
+def add_nested(ctx, defs):
+    todo = [(sh_, mo) for sh_, mo in (NESTED_QUICK if ctx.tier == 'quick' else NESTED_THOROUGH)
+            if not getattr(ctx, 'only', None) or any(o in 'C11_%s_%s' % (MODES[mo], sh_) for o in ctx.only)]
+    if not todo: return
+    l3.world2(ctx)
+    for shape, mode in todo:
+        h = l3.harness(ctx, 'C11_%s_%s' % (MODES[mode], shape), 'C11_nested.c', shape, defs + ['MODE=%d' % mode, 'L3_WORLD_C="l3w2.c"'], functions=FUN + l3.FUN_DEC + l3.FUN_NEST,
+                       timeout=900 if ctx.tier == 'quick' else 2400,
+                       desc='source d = factory(encode(m)) (decoded: shallow group elements, checked to hold the shape); ' +
+                            {0: 'encode(clone(d)) == encode(d); clone and original hold the shape incl. nested group elements',
+                             1: 'copy_legal of body, header, trailer of d into an empty deep-constructed List: counts, target holds the shape incl. nested group elements, encode equality, source unchanged',
+                             2: 'move_legal of body, header, trailer of d into an empty deep-constructed List: counts, target holds the shape incl. nested group elements, encode(target) == encode(d before the move)'}[mode])
+        h.nested = True; h.object_bits = 13
+    ctx.assumptions += ['nested shapes: schemas/mini2.xml (mini.xml + message List with a group nested in a group) compiled by the f8c of the tree under test on every run; nesting depth 2']
+
 def replay(ctx, cx, h=None):
+    hn = h.name if h is not None else str(cx.get('harness', ''))          # replay files carry the harness name: C11_<mode>_<shape>
+    if len(hn.split('_', 2)) == 3 and hn.split('_', 2)[2] in l3.NEST:
+        c = cx.get('cx', cx); _, mo, shape = hn.split('_', 2)
+        rc, out = l3.run_replay(ctx, 'd' + mo, l3.cx_args(c, shape), exe=l3.replay_exe2(ctx))
+        return rc != 0, '%s (source decoded by Message::factory) on shape %s: %s' % (mo, shape, l3.short(out))
     c = cx.get('cx', cx)
     shape = h.shape if h is not None else c.get('shape'); mode = MODES[int(next((d.split('=')[1] for d in h.defines if d.startswith('MODE=')), 0))] if h is not None else c.get('mode', 'clone')
     rc, out = l3.run_replay(ctx, mode, l3.cx_args(c, shape))
